@@ -19,8 +19,8 @@ def _core(out, tier, seed, prop, quick_mc, thorough_mc, quick_rand, thorough_ran
     ]
 
 
-QUICK_MC = [("gfa1s", 3), ("gfa2s", 3)]
-THOROUGH_MC = [("gfa1s", 4), ("gfa2s", 4), ("gfa1", 3), ("gfa2", 3)]
+QUICK_MC = [("gfa1s", 3), ("gfa2s", 3), ("ids2", 2), ("ids1", 2)]
+THOROUGH_MC = [("gfa1s", 4), ("gfa2s", 4), ("gfa1", 3), ("gfa2", 3), ("ids1", 3), ("ids2", 3)]
 
 
 def make_core(prop):
@@ -39,7 +39,8 @@ for p in ("C02", "C05", "C08", "C16"):
 def check_c09(out, tier, seed):
     """core histories plus the identifier catalogues (collisions across record types,
     integer-looking names, renames, unused_name())"""
-    mc = QUICK_MC + [("ids1", 3), ("ids2", 3)] if tier == "quick" else THOROUGH_MC + [("ids1", 4), ("ids2", 4)]
+    mc = [("gfa1s", 3), ("gfa2s", 3), ("ids1", 3), ("ids2", 3)] if tier == "quick" else \
+        [("gfa1s", 4), ("gfa2s", 4), ("gfa1", 3), ("gfa2", 3), ("ids1", 4), ("ids2", 4)]
     _core(out, tier, seed, "C09", mc, mc, (150, 10), (3000, 14))
 
 
